@@ -638,8 +638,9 @@ func (e *Extractor) extractSuffixes(re *syntax.Regexp, depth int) *Seq {
 				continue
 			}
 
-			// Can only extend with literal sub-expressions
-			if sub.Op != syntax.OpLiteral {
+			// Can only extend with exact (case-sensitive) literal sub-expressions.
+			// A FoldCase literal matches several byte strings, so it cannot be prepended verbatim.
+			if sub.Op != syntax.OpLiteral || sub.Flags&syntax.FoldCase != 0 {
 				// Non-literal encountered: mark all suffixes as incomplete and stop
 				lits := make([]Literal, suffixes.Len())
 				for j := 0; j < suffixes.Len(); j++ {
